@@ -567,14 +567,18 @@ func TestContextCond(t *testing.T) {
 
 type BStormPlan struct {
 	K      int    `json:"k"`
-	Noise  string `json:"noise"` // ended-waits | signals | both
+	Noise  string `json:"noise"` // ended-waits | signals | both | none
 	M      int    `json:"m"`     // noise goroutines
 	Rounds int    `json:"rounds"`
+	// Shared: c.L is the read side of an RWMutex (as with sync.Cond, any Locker will do), so several
+	// goroutines can be between "locked c.L" and "inside Wait" at the same time; the K waiters then enter
+	// Wait together, right after a Broadcast that found nobody waiting.
+	Shared bool `json:"shared,omitempty"`
 }
 
 func genBStorm(t *rapid.T) BStormPlan {
 	return BStormPlan{K: rapid.IntRange(2, 4).Draw(t, "k"), Noise: rapid.SampledFrom([]string{"ended-waits", "ended-waits", "signals", "both"}).Draw(t, "noise"),
-		M: rapid.IntRange(1, 3).Draw(t, "m"), Rounds: rapid.IntRange(100, 400).Draw(t, "rounds")}
+		M: rapid.IntRange(1, 3).Draw(t, "m"), Rounds: rapid.IntRange(100, 400).Draw(t, "rounds"), Shared: rapid.IntRange(0, 2).Draw(t, "shared") == 0}
 }
 
 type chanLock chan struct{}
@@ -599,21 +603,36 @@ func runBStorm(p BStormPlan) (out vk.Outcome, verr error) {
 			ended, cancel := context.WithCancel(context.Background())
 			cancel()
 			for round := 0; round < p.Rounds && verr == nil; round++ {
-				l := make(chanLock, 1)
+				var l sync.Locker = make(chanLock, 1)
+				if p.Shared {
+					l = new(sync.RWMutex).RLocker() // never blocks here: nobody takes the write side
+				}
 				c := xsync.NewContextCond(l)
+				if p.Shared {
+					c.Broadcast() // nobody is waiting yet
+				}
 				live, stopAll := context.WithCancel(context.Background())
 				returned := make([]atomic.Bool, p.K)
 				var wg sync.WaitGroup
+				gate := make(chan struct{})
+				if !p.Shared {
+					close(gate)
+				}
 				for i := 0; i < p.K; i++ {
 					wg.Add(1)
 					go func(i int) {
 						defer wg.Done()
+						<-gate
 						l.Lock()
 						if err := c.Wait(live); err == nil {
 							returned[i].Store(true)
 							l.Unlock()
 						}
 					}(i)
+				}
+				if p.Shared {
+					synctest.Wait()
+					close(gate) // all K go for c.L and Wait at the same moment
 				}
 				synctest.Wait() // all K are parked inside Wait
 				var stop atomic.Bool
